@@ -407,7 +407,11 @@ func genC13(tier string) []Scenario {
 		out = append(out, linScn{lens: []int{1, 1, 1}, first: first, core3: true, bound: b}.scenario())
 		if th {
 			out = append(out, linScn{lens: []int{1, 1, 1}, first: first, core3: true, prefill: true, bound: b}.scenario())
-			out = append(out, linScn{lens: []int{2, 1, 1}, first: first, core3: true, bound: 3}.scenario())
+			out = append(out, linScn{lens: []int{2, 1, 1}, first: first, core3: true, bound: unbounded}.scenario())
+			out = append(out, linScn{lens: []int{1, 2, 1}, first: first, core3: true, bound: unbounded}.scenario())
+			out = append(out, linScn{lens: []int{3, 1}, first: first, core3: true, prefill: true, bound: unbounded}.scenario())
+			out = append(out, linScn{lens: []int{1, 3}, first: first, core3: true, bound: unbounded}.scenario())
+			out = append(out, linScn{lens: []int{2, 2, 1}, first: first, core3: true, bound: 3}.scenario())
 		}
 	}
 	return out
